@@ -150,6 +150,20 @@ theorem C15_trigger_exactly_once (pre : List Op) (e a : Nat) (hnl : noLink pre)
         refine ⟨⟨hk.handle, a, hk.pooled⟩, (hmem _).mpr ⟨h, hk, hkk, callOf_of h1 hatt hb⟩, ?_⟩
         exact hnli.handle h hk hkk
 
+/-- Non-vacuity: hypotheses and conclusion of `C15_trigger_exactly_once` on a concrete history — hook 0
+was unhooked, hook 1 (pooled, limit 1) is used up by the first trigger, hooks 2 and 3 are invoked
+in attachment order with the second trigger's argument. -/
+example :
+    let pre : List Op := [.new 0, .hook 0 0 false, .hook 0 1 true, .hook 0 0 false, .unhook 0, .trigger 0 5,
+      .hook 0 3 false]
+    noLink pre ∧ 0 < (final init pre).evs.length ∧
+    (step (final init pre) (.trigger 0 6)).2 = .calls [⟨2, 6, false⟩, ⟨3, 6, false⟩] ∧
+    (step (final init (pre.take 5)) (.trigger 0 5)).2 = .calls [⟨1, 5, true⟩, ⟨2, 5, false⟩] := by
+  refine ⟨?_, by decide, by decide, by decide⟩
+  intro op hop
+  simp only [List.mem_cons, List.mem_nil_iff, or_false] at hop
+  rcases hop with rfl | rfl | rfl | rfl | rfl | rfl | rfl <;> rfl
+
 end events
 
 /-! ## `LinkTo` -/
@@ -533,6 +547,14 @@ theorem C15_weak_iteration (P : List Nat) (r r' : Reg) (ts ts' : List Th)
   intro hpc p hp
   subst hpc
   exact count_one_of_pairwise_lt h1 (h3 p hp)
+
+/-- Non-vacuity of the hypotheses of `C15_weak_iteration`: a well-formed registry, protected hooks
+1 and 4, unhookers only for 2 and 3. -/
+example :
+    let r0 : Reg := { live := [1, 2, 3, 4], frozen := [], counter := 4 }
+    r0.WF ∧ (∀ p ∈ [1, 4], p ∈ r0.live) ∧
+    (∀ t ∈ [Th.it .start [], .del 2 false, .del 3 false, .att false], t.initial = true) := by
+  refine ⟨⟨by decide, by decide, rfl⟩, by decide, by decide⟩
 
 /-- Non-vacuity and the frozen-pointer case: the iterator stands on hook 2 while hooks 2 and 3 are
 unhooked and hook 5 is attached; it continues through the removed hook 3 and reaches hook 4. -/
